@@ -1,7 +1,7 @@
 (* Props_C13.v — property C13 (hooks run once per record, in documented order, in the operation's
    transaction): ONLY theorem statements, each closed by [exact] of a lemma of C13_Proofs*.v.
    All are about [run], the function C13_Check.check_case evaluates on what the real gorm just did. *)
-From Verif Require Import Base C13_Model C13_Check C13_Proofs C13_Proofs2 C13_Proofs3 C13_Proofs4 C13_Proofs5 C13_Proofs6.
+From Verif Require Import Base C13_Model C13_Check C13_Proofs C13_Proofs2 C13_Proofs3 C13_Proofs4 C13_Proofs5 C13_Proofs6 C13_Vals C13_Vals2 C13_Vals3.
 Open Scope Z_scope.
 
 (* The hook log of every operation (Create, Save, Update(s), UpdateColumn(s), Delete, Find, First), for
@@ -78,6 +78,27 @@ Theorem c13_update_map : forall k v m, map_val (map_set k v m) = Some v.
 Proof. exact map_val_set. Qed.
 Print Assumptions c13_update_map.
 
+(* END TO END, about [run]: Create (and Save when it inserts) of any type, argument shape and number of
+   records, with association values, any set of SetColumn calls, any transaction mode.  When the
+   operation returns no error, the row of EVERY record holds the value the LAST before-hook
+   (BeforeSave / BeforeCreate) of that record asked for with SetColumn — read off the hook log with the
+   checker's own [last_set] — or the record's original value when none asked ([want]). *)
+Theorem c13_create_values_stored : forall o, op_ok o -> create_shaped o -> vals_dom o ->
+  s_err (run o) = [] ->
+  forall r, In r (o_recs o) ->
+    In (TRecs, m_tag r, want o (o_ty o) (hooks_of (s_tr (run o))) r) (s_tbl (run o)).
+Proof. exact run_create_values. Qed.
+Print Assumptions c13_create_values_stored.
+
+(* the clause [vals_ok] that check_case evaluates on gorm's observed log and tables holds of the model's
+   own run (operations without association values: the clause is then exactly the statement above) *)
+Theorem c13_create_vals_ok : forall o, op_ok o -> create_shaped o -> vals_dom o ->
+  a_boss (o_assocs o) = [] -> a_kids (o_assocs o) = [] -> a_pets (o_assocs o) = [] ->
+  s_err (run o) = [] ->
+  vals_ok o (hooks_of (s_tr (run o))) (s_tbl (run o)) = true.
+Proof. exact run_create_vals_ok. Qed.
+Print Assumptions c13_create_vals_ok.
+
 (* ---- refuted at full strength (replayed on the real gorm: corpus/C13/kf_mixed_*.json) ---- *)
 
 (* hooks of one phase declared partly on T and partly on *T: for a single struct the pointer-receiver
@@ -127,4 +148,27 @@ Proof.
       * unfold goodk, wf_shape. cbn. repeat split; try reflexivity. discriminate.
       * unfold assocs_ok, assoc_vals_ok. cbn. repeat split; try reflexivity; try lia; try discriminate.
   - vm_compute. repeat split.
+Qed.
+
+(* ---- non-vacuity of the stored-values theorem: two records with association values; the before-hooks of
+   record 101 ask for 1000 and then 1001, BeforeCreate of record 102 asks for 1003 ---- *)
+Definition w_vals : op :=
+  mk_op OCreate t1 (mk_shape CSlice true false) [mk_rec 0 101 1 false; mk_rec 0 102 2 false]
+        (mk_assocs (leaf_ty 12, leaf_ty 13, leaf_ty 14) [mk_rec 0 301 3 false] [mk_rec 0 201 1 false; mk_rec 0 202 2 false] [] (leaf_ty 15) [])
+        false TxDefault [] [0; 1; 3] KField 0 PVMapDb 0 [] no_opts.
+Example c13_vals_instance : op_ok w_vals /\ create_shaped w_vals /\ vals_dom w_vals /\ s_err (run w_vals) = []
+  /\ want w_vals t1 (hooks_of (s_tr (run w_vals))) (mk_rec 0 101 1 false) = 1001
+  /\ want w_vals t1 (hooks_of (s_tr (run w_vals))) (mk_rec 0 102 2 false) = 1003
+  /\ In (TRecs, 101, 1001) (s_tbl (run w_vals)) /\ In (TRecs, 102, 1003) (s_tbl (run w_vals)).
+Proof.
+  split; [|split; [left; reflexivity|split]].
+  - split.
+    + intro p. exact I.
+    + cbn. split.
+      * unfold goodk, wf_shape. cbn. repeat split; try reflexivity. discriminate.
+      * unfold assocs_ok, assoc_vals_ok. cbn. repeat split; try reflexivity; try lia; try discriminate.
+  - split; [reflexivity|]. split.
+    + cbn. repeat constructor; cbn; intuition discriminate.
+    + intros x y Hx Hy. cbn in Hx, Hy. intuition (subst; cbn; discriminate).
+  - vm_compute. intuition.
 Qed.
